@@ -238,23 +238,33 @@ def run(rep, tier):
         ev, sev = wd / "ev_tseitin.ndjson", wd / "ev_tseitin_solve.ndjson"
         rev, rsev = wd / "ev_rformulas.ndjson", wd / "ev_rformulas_solve.ndjson"
         pev, psev = wd / "ev_repeats.ndjson", wd / "ev_repeats_solve.ndjson"
+        cev, csev = wd / "ev_clash.ndjson", wd / "ev_clash_solve.ndjson"
+        rcev, rcsev = wd / "ev_rclash.ndjson", wd / "ev_rclash_solve.ndjson"
         if quick:
             # all formulas with <= 1 connective, a seeded sample of 110 of the 2-connective ones, 30 random larger ones, and
             # EVERY formula of the repeated-sub-formula family (X op X in every 0-2 connective context: 516; their proofs are
             # checked with the macros of level 1 trusted, as the repository's own test does; thorough expands every macro)
             jobs = [("c15", ["tseitin", vec, ev, sev, seed(), 1, 110, "prove"], env),
                     ("c15", ["rformulas", 30, rev, rsev, seed(), "prove"], env),
-                    ("c15", ["repeats", vec, pev, psev, 1], env)]
+                    ("c15", ["repeats", vec, pev, psev, 1], env),
+                    # name-space family (atoms named like the encoder's fresh variables): all with <= 1 connective, 150 sampled
+                    ("c15", ["family", vec, cev, csev, "clash", seed(), 1, 150, 1], env)]
+            extra = [cev]
+            extra_s = [csev]
         else:
             jobs = [("c15", ["tseitin", vec, ev, sev, seed(), 2, 1200, "prove"], env),
                     ("c15", ["rformulas", 600, rev, rsev, seed(), "prove"], env),
-                    ("c15", ["repeats", vec, pev, psev, 0], env)]
+                    ("c15", ["repeats", vec, pev, psev, 0], env),
+                    ("c15", ["family", vec, cev, csev, "clash", seed(), 2, 100000, 0], env),
+                    ("c15", ["rclash", 400, rcev, rcsev, seed(), "prove"], env)]
+            extra = [cev, rcev]
+            extra_s = [csev, rcsev]
         run_drivers_parallel(jobs, timeout=6000, max_workers=3)
-        evs = _merge([ev, rev, pev], wd / "all_tseitin.ndjson")
+        evs = _merge([ev, rev, pev] + extra, wd / "all_tseitin.ndjson")
         out["evs"] = evs
         out["T"] = _validate_with_selftest(rep, "C15_TseitinTrace", evs, _corrupt_tseitin(evs), wd / "allst_tseitin.ndjson",
                                            wd / "tv_tseitin", 1 if quick else 2)
-        sevs = _merge([sev, rsev, psev], wd / "all_tseitin_cnf.ndjson")
+        sevs = _merge([sev, rsev, psev] + extra_s, wd / "all_tseitin_cnf.ndjson")
         out["sevs"] = sevs
         out["Ts"] = validate_trace("C15_SatTrace", wd / "all_tseitin_cnf.ndjson", wd=wd / "tv_tseitin_cnf", nchunks=1)
         return out
@@ -268,6 +278,11 @@ def run(rep, tier):
                     ["ResolutionSound", "RefutationComplete", "CertificateOnlyIfUnsat"], wd=wd, workers=1,
                     env={"VECTOR_FILE": wd / "mutant_vectors.ndjson"})
         if not quick:
+            # the reference that names its variables x1, x2, ... WITHOUT looking at the atoms of the input: on an input whose
+            # atoms carry such names the definitions are not fresh and the clauses are not equisatisfiable (a & ~x1)
+            spec_mutant(rep, "reference_names_ignore_the_atoms", "C15_Tseitin", "C15_Tseitin_clash.cfg",
+                        [("C15_Prop.tla", "RefNames(f, n) == FreshNames(n, AtomsOf(f))", "RefNames(f, n) == FreshNames(n, {})")],
+                        ["RefEquisat"], wd=wd, workers=1, env={"VECTOR_FILE": wd / "mutant_vectors3.ndjson"})
             # the reference encoding of a conjunction without  ~x | z : a & ~a would become satisfiable
             spec_mutant(rep, "tseitin_and_without_second_clause", "C15_Tseitin", "C15_Tseitin_small.cfg",
                         [("C15_Prop.tla", "[] g[1] = \"and\" -> << << <<x, FALSE>>, <<N(g[2]), TRUE>> >>, << <<x, FALSE>>, <<N(g[3]), TRUE>> >>,",
@@ -363,6 +378,9 @@ def run(rep, tier):
         rep.notes["counts"]["tseitin_cnfs_with_repeated_or_complementary_literal"] = n_replit
         # (guard on the INPUTS only: how many CNFs keep a repeated literal depends on the code under test)
         require(n_rep >= (500 if quick else 3000), "C15: the repeated-sub-formula family was not replayed (vacuity guard)")
+        n_clash = sum(1 for e in ts_res["evs"] if e["src"] in ("clash", "rclash") and e["kind"] == "tseitin")
+        rep.notes["counts"]["tseitin_name_space_family"] = n_clash
+        require(n_clash >= (150 if quick else 1000), "C15: the name-space family (atoms named x1, x2, ...) was not replayed (vacuity guard)")
 
     # ---- second specification mutant: the algorithm with a back-jump to the HIGHEST level of the learned clause keeps the
     # trail and must not terminate (run on the model of the repaired code; on a tree without the repair only in thorough)
